@@ -24,23 +24,33 @@ from scipy import sparse
 from vlib.cases import Case, Sub, evaluate as _evaluate
 from vlib.core import enc_rat, enc_bool, VERIF
 
-RULE = ('edge lists: exhaustive lists of <= 2 edges over 3 identifiers (int and str) x all 32 flag combinations (thorough: all lists of 3 edges x 4 sampled flag combinations), '
-        'sampled lists of 3..7 edges over int / gapped int / negative int / letter / mixed / numeric-string identifiers with '
-        'duplicate, reciprocal, self-loop, zero, negative, dyadic and boolean weights x flags x shape x matrix_only, '
-        'list and ndarray inputs, adjacency lists and dicts; CSV files written with each delimiter (tab , ; space and an '
-        'explicit |), 0..3 header lines with # / %, with and without final newline, numeric and string identifiers, '
-        'delimiter given / given as sep / inferred; datasets with csr / ndarray / pickled attributes saved and loaded; '
-        'path pairs and in-memory tar archives with hostile member names extracted into a scratch folder; GraphML files. '
+RULE = ('edge lists: exhaustive lists of <= 2 edges over 3 identifiers (int and str) x all 32 flag combinations (thorough: all '
+        'lists of 3 edges x 4 sampled flag combinations), sampled lists of 1..7 edges over int / gapped int / negative int / '
+        '64-bit int beyond 2^53 (as ints and as numeric strings) / letter / mixed / numeric-string identifiers with duplicate, '
+        'reciprocal, self-loop, zero, negative, dyadic and boolean weights x flags x shape x matrix_only, list and ndarray '
+        'inputs, adjacency lists and dicts; CSV files with each delimiter (tab , ; space and an explicit |), 0..3 header lines '
+        '(# / % / mixed / other characters through comments=), comment lines and blank lines between and after the rows, names '
+        'containing another candidate delimiter, more than n_scan rows, with and without final newline, numeric (also beyond '
+        '2^53) and string identifiers, delimiter given / given as sep / inferred, the three layouts (all with the expected '
+        'edges as a spec line; files whose delimiter is genuinely ambiguous: run line only); datasets with csr / ndarray / '
+        'pickled attributes saved and loaded through absolute / relative / ~ / pathlib / trailing-slash folder names, the '
+        'bundle functions into a non-empty folder; path pairs; in-memory tar archives with hostile member names and with '
+        'symbolic-link / hard-link / directory members, everything created under the scratch root being observed without '
+        'following links; GraphML documents (weight key of type int / long / float / double / boolean or absent, node and '
+        'edge data of other keys, keys for node / edge / all / graph, a node key named like the weight key, canonical ids). '
         'A case is non-trivial when the call succeeds on an input with at least two edges (ingestion), two attributes '
         '(persistence) or a member name containing a separator or dots (extraction); distinct = distinct (function, input, flags)')
 ASSUMPTIONS = [
     'numpy / scipy are the substrate: np.array coercion of a list of tuples, np.unique, csr_matrix((data,(row,col))) summing '
-    'duplicates, A + A.T, astype; np.genfromtxt and csv.reader split unquoted lines at the delimiter',
-    'identifiers are integers or strings that are not read as numbers unless in canonical integer form '
-    '(no "01", "1e3", "nan", "1_0"): numpy reads numeric strings as numbers, by design of from_csv',
-    'weights are integers or dyadic rationals (float64 sums exact); comment lines form a header using one comment character',
+    'duplicates, A + A.T, astype; np.genfromtxt and csv.reader split unquoted lines at the delimiter (no quote characters)',
+    'identifiers are integers in the int64 range or strings; strings that numpy reads as numbers are only generated in '
+    'canonical integer form (no "01", "1e3", "nan", "1_0", "1.0"): the spelling of numeric-looking strings is not preserved '
+    'by from_edge_list (excluded input, stated in the status file)',
+    'weights are integers or dyadic rationals (float64 sums exact)',
     'np.save / np.load / save_npz / load_npz / pickle round-trip their payload; os.listdir returns the files in some order',
-    'tarfile.extractall writes member m at join(path, m) resolved lexically (no symbolic links inside the folder)',
+    'tarfile.extractall(filter="data") is trusted for link members (nothing is created outside the folder); the harness '
+    'monitors it by observing the whole scratch root after each extraction',
+    'exception classes are compared exactly (subclasses of tarfile.FilterError and of FileNotFoundError identified)',
 ]
 
 TEXT = 'TEXT'          # a weight that is not numeric
@@ -357,8 +367,10 @@ def csv_case(text, lines, args, fl, edges, tag):
             early = 'from_csv raised %s on a well-formed file' % impl
     sig = {'entry': 'from_csv', 'delimiter': args.get('delimiter') or args.get('sep') or 'inferred',
            'given_as': 'delimiter' if args.get('delimiter') else ('sep' if args.get('sep') else 'inferred'),
-           'header_lines': sum(1 for ln in lines if ln[:1] in ('#', '%')), 'rows': len(lines),
-           'header': {0: 'none', 1: 'single'}.get(len({ln[:1] for ln in lines if ln[:1] in ('#', '%')}), 'mixed'),
+           'header_lines': sum(1 for ln in lines if ln[:1] and ln[:1] in (args.get('comments') or '#%')),
+           'rows': len(lines), 'comments': args.get('comments') or 'default',
+           'header': {0: 'none', 1: 'single'}.get(len({ln[:1] for ln in lines
+                                                        if ln[:1] and ln[:1] in (args.get('comments') or '#%')}), 'mixed'),
            'layout': args.get('data_structure') or 'guessed'}
     sig.update({k: fl[k] for k in FLAG_KEYS})
     desc = {'f': 'from_csv', 'text': text, 'args': args, 'flags': fl,
@@ -414,22 +426,42 @@ def persist_case(attrs, rng, tag, absolute=True):
     with open(os.path.join(folder, 'stale.npy'), 'wb') as fh:
         np.save(fh, np.arange(2))
     cwd = os.getcwd()
+    home = os.environ.get('HOME')
+    form = {True: 'abs', False: 'rel'}.get(absolute, absolute)
+
+    def enter():
+        """The folder argument in the requested form (the process state it needs is set, `leave` restores it)."""
+        if form == 'rel':
+            os.chdir(scratch())
+            return os.path.basename(folder)
+        if form == 'home':
+            os.environ['HOME'] = scratch()
+            return '~/' + os.path.basename(folder)
+        if form == 'pathlib':
+            from pathlib import Path
+            return Path(folder)
+        if form == 'trailing':
+            return folder + '/'
+        return folder
+
+    def leave():
+        os.chdir(cwd)
+        if home is None:
+            os.environ.pop('HOME', None)
+        else:
+            os.environ['HOME'] = home
     err = None
     try:
-        if absolute:
-            L.save(folder, ds)
-        else:
-            os.chdir(scratch())
-            L.save(os.path.basename(folder), ds)
+        L.save(enter(), ds)
     except Exception as e:      # noqa: BLE001 - any refusal to save is an observation
         err = 'err ' + type(e).__name__
     finally:
-        os.chdir(cwd)
+        leave()
     ext_kind = {'.npz': 'csr', '.npy': 'ndarray', '.p': 'other'}
     cases = []
     ds_tok = ','.join('%s:%s:%d' % (enc_str(k), kind, pid) for k, kind, pid in attrs) or '-'
     sig = {'entry': 'save', 'dotted_key': any('.' in k for k, _, _ in attrs),
-           'bad_key': any(k == '' or '/' in k for k, _, _ in attrs)}
+           'bad_key': any(k == '' or '/' in k for k, _, _ in attrs), 'folder_form': form}
     desc = {'f': 'save_load', 'attrs': [list(a) for a in attrs], 'absolute': absolute}
     if err is not None:
         cases.append(Case(('save', ds_tok), sig, 'c18.save ' + ds_tok, err, None, False, desc))
@@ -459,14 +491,10 @@ def persist_case(attrs, rng, tag, absolute=True):
     cases.append(Case(('save', ds_tok), sig, 'c18.save ' + ds_tok, impl_save, None, len(attrs) >= 2, desc, canon='files'))
     # load
     try:
-        if absolute:
-            back = L.load(folder)
-        else:
-            os.chdir(scratch())
-            try:
-                back = L.load(os.path.basename(folder))
-            finally:
-                os.chdir(cwd)
+        try:
+            back = L.load(enter())
+        finally:
+            leave()
         got = []
         for k, v in back.items():
             pid = [p for p, val in values.items() if same_value(val, v)]
@@ -886,6 +914,11 @@ def gen_csv_cases(ctx, out, earlies):
         header = rng.choice([[], [cchar + ' header']])
         text = '\n'.join(header + lines) + '\n' + ('\n' * rng.randint(1, 2) if kind in ('blank-trailing', 'both') else '')
         args = {} if rng.random() < 0.5 else {'delimiter': d}
+        if rng.random() < 0.3:
+            # the comment characters are an argument: a file commented with ! (and the default ones as data)
+            other = rng.choice(['!', '!/', '/'])
+            text = text.replace(cchar + ' ', other[0] + ' ')
+            args['comments'] = other
         c, e = csv_case(text, None, args, rand_flags(rng), [(str(a), str(b), w) for a, b, w in edges], tag())
         c.sig['rows_layout'] = kind
         out.append(c)
@@ -973,7 +1006,7 @@ def gen_persist_cases(ctx, out, earlies):
         keys = rng.sample(names, rng.randint(0, 5))
         attrs = [(k, rng.choice(kinds), i) for i, k in enumerate(keys)]
         t += 1
-        cs, e = persist_case(attrs, rng, str(t), absolute=rng.random() < 0.7)
+        cs, e = persist_case(attrs, rng, str(t), absolute=rng.choice([True, True, True, False, 'home', 'pathlib', 'trailing']))
         out.extend(cs)
         earlies.append((cs[-1], e))
         ctx.count('persist:plain-keys')
@@ -985,6 +1018,42 @@ def gen_persist_cases(ctx, out, earlies):
         cs, e = persist_case(attrs, rng, str(t))
         out.extend(cs)
         ctx.count('persist:odd-keys')
+    # the bundle functions themselves, into a folder that already holds a file: it stays and comes back as an attribute
+    from sknetwork.data.base import Dataset
+    import sknetwork.data  # noqa: F401
+    L0 = sys.modules['sknetwork.data.load']
+    for i, (stale, attrs) in enumerate([('old.npy', [('names', 'ndarray', 1)]), ('names.npy', [('names', 'ndarray', 1)]),
+                                        ('adjacency.npz', [('labels', 'ndarray', 1), ('meta', 'other', 2)])]):
+        home = os.path.join(scratch(), 'home_%d' % i)
+        folder = os.path.join(home, 'bb')
+        os.makedirs(folder)
+        if stale.endswith('.npz'):
+            sparse.save_npz(os.path.join(folder, stale), make_payload('csr', 0, rng))
+        else:
+            np.save(os.path.join(folder, stale), make_payload('ndarray', 0, rng))
+        ds = Dataset()
+        vals = {0: make_payload('csr' if stale.endswith('.npz') else 'ndarray', 0, rng)}
+        for key, kind, pid in attrs:
+            vals[pid] = make_payload(kind, pid, rng)
+            ds[key] = vals[pid]
+        try:
+            L0.save_to_numpy_bundle(ds, 'bb', home)
+            back = L0.load_from_numpy_bundle('bb', home)
+            got = []
+            for k, v in back.items():
+                pid = [p_ for p_, val in vals.items() if same_value(val, v)]
+                kind = 'csr' if type(v) is sparse.csr_matrix else ('ndarray' if type(v) is np.ndarray else 'other')
+                got.append('%s:%s:%d' % (enc_str(k), kind, pid[0] if pid else 998))
+            impl = 'ok ' + (','.join(got) or '-')
+        except Exception as e:      # noqa: BLE001
+            impl = 'err ' + type(e).__name__
+        stale_tok = '%s:%s:0' % (enc_str(stale), 'csr' if stale.endswith('.npz') else 'ndarray')
+        ds_tok = ','.join('%s:%s:%d' % (enc_str(k), kind, pid) for k, kind, pid in attrs)
+        out.append(Case(('bundle', stale, ds_tok), {'entry': 'save_to_numpy_bundle', 'stale': stale},
+                        'c18.bundle_roundtrip %s %s' % (stale_tok, ds_tok), impl, None, True,
+                        {'f': 'bundle', 'stale': stale, 'attrs': [list(a) for a in attrs]}, canon='dataset'))
+        ctx.count('persist:bundle-into-existing-folder')
+        shutil.rmtree(home, ignore_errors=True)
     # a bare matrix
     import sknetwork.data  # noqa: F401
     L = sys.modules['sknetwork.data.load']
